@@ -96,6 +96,11 @@ def relocate(c, n):
             if i['mn'] == 'scas':
                 m = (1 << i['w']) - 1
                 regs[0] = (regs[0] & ~m & M32) | sum(((k * 37 + j) % 256) << (8 * j) for j in range(w8))
+    if i['mn'] == 'leave':
+        regs[5] = win + 64
+        over += [[regs[5] + j, (k * 53 + 17 * j) % 256] for j in range(4)]
+    if i['mn'] == 'xlat':
+        regs[3] = win                                  # ebx + al stays inside the window
     if i['mn'] in ('pop', 'popad') and pool and k % 2 == 0:
         over += [[regs[4] + j, v] for j, v in enumerate(pool)]
     if i['mn'] == 'cmpxchg' and mems and k % 3 == 0:
